@@ -708,8 +708,8 @@ def _atomic_splice_attrs(ctx, viol):
     for n in ast.walk(fx):
         if isinstance(n, ast.Assign) and len(n.targets) == 1 and isinstance(n.targets[0], ast.Name):
             v = n.value
-            if isinstance(v, ast.Call) and v.args and S.unparse(v.func) in ("copy.deepcopy", "copy.copy", "deepcopy", "copy"):
-                v = v.args[0]
+            if isinstance(v, ast.Call) and len(v.args) == 1 and not v.keywords and isinstance(v.func, (ast.Name, ast.Attribute)):
+                v = v.args[0]          # a copy of it (copy.deepcopy, a copying helper): same classes
             if isinstance(v, ast.Attribute) and v.attr == "type" and isinstance(v.value, ast.Name) and v.value.id == "node":
                 holders.add(n.targets[0].id)
     if not holders:
